@@ -378,6 +378,9 @@ func annotatedCasesFor(gen string, u *schema.Universe, r *schema.Resource) []exc
 		rawCase("partial_update-set-id", "POST", "partial_update", root+"/7", `{"patch":{"$set":{"id":1}}}`, roco, pID),
 		rawCase("partial_update-delete-created", "POST", "partial_update", root+"/7", `{"patch":{"$delete":["created"]}}`, roco, pCreated),
 		rawCase("partial_update-nested-set-inner-o", "POST", "partial_update", root+"/7", `{"patch":{"inner":{"$set":{"o":"x"}}}}`, roco, pInnerO),
+		// the whole record set in one go: the excluded field travels inside the $set value
+		rawCase("partial_update-set-whole-inner", "POST", "partial_update", root+"/7", `{"patch":{"$set":{"inner":`+ej(schema.Rich(ent))+`}}}`, roco, pInnerO, pInnerA),
+		rawCase("batch_partial_update-set-whole-inner", "POST", "batch_partial_update", root+"?ids=List(7)", `{"entities":{"7":{"patch":{"$set":{"inner":`+ej(schema.Rich(ent))+`}}}}}`, roco, pInnerO, pInnerA),
 		rawCase("batch_partial_update-set-id", "POST", "batch_partial_update", root+"?ids=List(7)", `{"entities":{"7":{"patch":{"$set":{"id":1}}}}}`, roco, pID),
 		rawCase("batch_partial_update-nested-set-inner-a", "POST", "batch_partial_update", root+"?ids=List(7)", `{"entities":{"7":{"patch":{"inner":{"$set":{"a":1}}}}}}`, roco, pInnerA),
 	)
